@@ -77,7 +77,7 @@ theorem combine_cons (n : Nat) (row : Vec α) (J : Mat α) (a : α) (w : Vec α)
     (zipWith_smul_length n J hJ w)]
   rfl
 
-theorem combine_length (n : Nat) (J : Mat α) (hJ : ∀ r ∈ J, r.length = n) (w : Vec α) :
+theorem combine_length_imp (n : Nat) (J : Mat α) (hJ : ∀ r ∈ J, r.length = n) (w : Vec α) :
     (combine n J w).length = n :=
   vsum_length n _ (zipWith_smul_length n J hJ w)
 
@@ -92,12 +92,12 @@ theorem dot_matVec_combine (n : Nat) (r : Vec α) : ∀ (J : Mat α) (w : Vec α
     have hrow : row.length = n := h row (by simp)
     have hJ : ∀ r ∈ J, r.length = n := fun r hr => h r (by simp [hr])
     rw [combine_cons n row J a w hrow hJ,
-      dot_vadd_right _ _ _ (by rw [smul_length, combine_length n J hJ]; exact hrow),
+      dot_vadd_right _ _ _ (by rw [smul_length, combine_length_imp n J hJ]; exact hrow),
       dot_smul_right, ← dot_matVec_combine n r J w hJ]
     show dot (dot row r :: matVec J r) (a :: w) = _
     rw [dot_cons_cons, dot_comm' row r, mul_comm]
 
-theorem gram_getD (J : Mat α) (i : Nat) (hi : i < J.length) :
+theorem gram_getD_imp (J : Mat α) (i : Nat) (hi : i < J.length) :
     (gram J).getD i [] = matVec J (J.getD i []) := by
   simp [gram, matVec, List.getD_eq_getElem?_getD, List.getElem?_eq_getElem hi]
   exact fun a _ => dot_comm' _ _
@@ -106,7 +106,7 @@ theorem gram_getD (J : Mat α) (i : Nat) (hi : i < J.length) :
 theorem gram_matVec_getD (n : Nat) (J : Mat α) (hJ : ∀ row ∈ J, row.length = n) (w : Vec α)
     (i : Nat) (hi : i < J.length) :
     (matVec (gram J) w).getD i 0 = dot (J.getD i []) (combine n J w) := by
-  rw [matVec_getD, gram_getD J i hi, dot_matVec_combine n _ J w hJ]
+  rw [matVec_getD, gram_getD_imp J i hi, dot_matVec_combine n _ J w hJ]
 
 theorem getD_map_lt {β γ : Type} (g : β → γ) (l : List β) (i : Nat) (hi : i < l.length) (d : β)
     (e : γ) : (l.map g).getD i e = g (l.getD i d) := by
@@ -233,7 +233,7 @@ theorem alignedCert_spec (M vecs : Mat α) (sigma : Vec α) (h : alignedCert M v
     exact h3 _ e1 _ e2
   · exact h4 a (List.mem_range.mpr ha) b (List.mem_range.mpr hb)
 
-theorem toFn_oneHot (m a : Nat) (j : Fin m) :
+theorem toFn_oneHot_imp (m a : Nat) (j : Fin m) :
     toFn m (oneHot m a : Vec α) j = if (j : Nat) = a then 1 else 0 := by
   simp [toFn, oneHot, List.getD_eq_getElem?_getD, List.getElem?_range j.2]
 
@@ -243,7 +243,7 @@ theorem dot_oneHot (v : Vec α) (m a : Nat) (ha : a < m) (hv : v.length = m) :
   have : ∀ j : Fin m, v.getD j 0 * (oneHot m a : Vec α).getD j 0 =
       if j = (⟨a, ha⟩ : Fin m) then v.getD a 0 else 0 := by
     intro j
-    have := toFn_oneHot (α := α) m a j
+    have := toFn_oneHot_imp (α := α) m a j
     rw [toFn_apply] at this
     rw [this]
     by_cases hj : (j : Nat) = a
@@ -313,7 +313,7 @@ theorem gram_length (J : Mat α) : (gram J).length = J.length := by simp [gram]
 
 theorem gram_getD_getD (J : Mat α) (a b : Nat) (ha : a < J.length) :
     ((gram J).getD a []).getD b 0 = dot (J.getD a []) (J.getD b []) := by
-  rw [gram_getD J a ha, matVec_getD, dot_comm']
+  rw [gram_getD_imp J a ha, matVec_getD, dot_comm']
 
 theorem aligned_matrix_identity {m : Nat} (V : Matrix (Fin m) (Fin m) α) (σ : Fin m → α) (c : α)
     (hσ : ∀ i, σ i ≠ 0) (hV : V * Vᵀ = 1) (G B : Matrix (Fin m) (Fin m) α)
@@ -399,7 +399,7 @@ theorem aligned_balanced_aux (J : Mat α) (m n : Nat) (hJ : MatWF J m n) (vecs :
     rw [Matrix.mul_diagonal, dot_oneHot _ m e he (hv _ (getD_mem vecs [] k hk1))]
     simp only [Matrix.transpose_apply, toMat_apply]
     ring
-  rw [dot_eq_left n _ _ (combine_length n J hJ.2 _).le,
+  rw [dot_eq_left n _ _ (combine_length_imp n J hJ.2 _).le,
     toFn_combine J m n hJ _ (alignedB_length vecs sigma m hv c _),
     toFn_combine J m n hJ _ (alignedB_length vecs sigma m hv c _), hW a ha, hW b hb]
   have key := aligned_matrix_identity (toMat m m vecs) (toFn m sigma) c hσ hV _ _ hG rfl
